@@ -362,12 +362,16 @@ void pfx_table_notify_diff(struct pfx_table *new_table, struct pfx_table *old_ta
 }
 
 /* ---------------- router-key table ---------------- */
-void spki_table_init(struct spki_table *t, spki_update_fp fp)
+int spki_table_init(struct spki_table *t, spki_update_fp fp)
 {
 	t->update_fp = fp;
 	if (tm_sid(t) == 1)
 		for (unsigned int i = 0; i < TM_CAP; i++)
 			tm_spki1.used[i] = false;
+	/* the real function reports a failed bucket-array allocation (the table may then only be freed) */
+	if (tm_nd_fail())
+		return SPKI_ERROR;
+	return SPKI_SUCCESS;
 }
 
 int spki_table_add_entry(struct spki_table *t, struct spki_record *r)
